@@ -30,6 +30,8 @@ pub enum FrameLen {
     Default,
     DefaultPlusOne,
     Small,
+    /// after a status request: a ping whose length prefix declares 2^21 + 9 (its low 21 bits say 9)
+    AliasedPing,
 }
 
 #[derive(Clone, Debug, Serialize, Deserialize, PartialEq)]
@@ -47,6 +49,8 @@ pub enum Scn {
     Frame(FrameLen),
     /// age relative to the configured expiry: true = inside (expiry - margin), false = outside (expiry + margin)
     Cookie { inside: bool, other_secret: bool },
+    /// a cookie that is one second inside the expiry when the client connects, presented two seconds later
+    StallThenCookie,
     Behave(Behaviour),
 }
 
@@ -123,6 +127,65 @@ fn run_scenario(case: &Case, port: u16, scn: &Scn) -> Result<(), (String, String
     let timeout = Duration::from_secs(u64::from(case.timeout_s));
     let m = case.max_len as usize;
     match scn {
+        Scn::Frame(FrameLen::AliasedPing) => {
+            let mut c = NetClient::connect(port).map_err(|e| ("inconclusive".to_string(), e.to_string()))?;
+            c.phase = rc::Phase::Status;
+            let _ = c.send(&Pkt::Handshake { protocol: 770, host: "alias.example.org".into(), port: 25565, next: 1 });
+            let _ = c.send(&Pkt::StatusRequest);
+            match c.recv(timeout + SLACK) {
+                Ok(Pkt::StatusResponse { .. }) => {}
+                other => return Err(("inconclusive".into(), format!("no status response: {other:?}"))),
+            }
+            let before = c.received;
+            let mut raw = rc::varint_bytes((1 << 21) + 9);
+            raw.extend_from_slice(&[0x11, 0x22, 0x33, 0x44, 0x55, 0x66, 0x77, 0x88]);
+            let _ = c.write_raw(&raw);
+            let r = c.recv(timeout + SLACK);
+            if c.received > before {
+                return Err(("frame-above-configured-maximum-accepted".into(), format!("configured max_packet_length {m}: a frame declaring 2^21+9 bytes was answered ({r:?})")));
+            }
+            Ok(())
+        }
+        Scn::StallThenCookie => {
+            if m < 600 || case.timeout_s < 3 {
+                return Ok(());
+            }
+            let mut c = NetClient::connect(port).map_err(|e| ("inconclusive".to_string(), e.to_string()))?;
+            let me = c.local_addr();
+            let now0 = cookie::now_secs();
+            let spec = CookieSpec {
+                age: case.expiry as i64 - 1,
+                addr: me.to_string(),
+                identity: Identity { name: "CookieUser".into(), uuid: uuid::Uuid::from_u128(0xC14), properties: vec![] },
+                target: None,
+                other_secret: None,
+                mutation: Mutation::None,
+            };
+            let presented = cookie::build(&spec, Some(case.secret.as_bytes()), now0);
+            let io = |r: std::io::Result<()>| r.map_err(|e| ("inconclusive".to_string(), e.to_string()));
+            io(c.send(&Pkt::Handshake { protocol: 770, host: "stall.example.org".into(), port: 25565, next: 3 }))?;
+            io(c.send(&Pkt::LoginStart { name: "Claimed".into(), uuid: uuid::Uuid::from_u128(0x4e45) }))?;
+            loop {
+                match c.recv(timeout) {
+                    Ok(Pkt::LoginCookieRequest { key }) if key == cookie::AUTH_KEY => {
+                        // the cookie is still valid now; present it once it is not
+                        while cookie::now_secs() < now0 + 2 {
+                            std::thread::sleep(Duration::from_millis(50));
+                        }
+                        std::thread::sleep(Duration::from_millis(100));
+                        io(c.send(&Pkt::LoginCookieResponse { key, payload: Some(presented.clone()) }))?;
+                    }
+                    Ok(Pkt::LoginCookieRequest { key }) => io(c.send(&Pkt::LoginCookieResponse { key, payload: None }))?,
+                    Ok(Pkt::EncryptionRequest { should_authenticate, .. }) => {
+                        if !should_authenticate {
+                            return Err(("cookie-older-than-configured-expiry-accepted".into(), format!("configured expiry {} s: a cookie that was {} s old at connect and was presented {} s later was accepted", case.expiry, case.expiry - 1, cookie::now_secs() - now0)));
+                        }
+                        return Ok(());
+                    }
+                    other => return Err(("inconclusive".into(), format!("stalled login: {other:?}"))),
+                }
+            }
+        }
         Scn::Frame(fl) => {
             let l = match fl {
                 FrameLen::MaxMinusOne => m - 1,
@@ -132,6 +195,7 @@ fn run_scenario(case: &Case, port: u16, scn: &Scn) -> Result<(), (String, String
                 FrameLen::Default => 10_000,
                 FrameLen::DefaultPlusOne => 10_001,
                 FrameLen::Small => 40,
+                FrameLen::AliasedPing => unreachable!(),
             };
             let Some(frame) = handshake_of_len(l) else { return Ok(()) };
             let mut c = NetClient::connect(port).map_err(|e| ("inconclusive".to_string(), e.to_string()))?;
@@ -276,6 +340,13 @@ fn decide(case: &Case, info: &mut CaseInfo) -> Verdict {
                 info.nontrivial = true;
                 info.class("behaviour_outlives_timeout");
             }
+            Scn::StallThenCookie if case.timeout_s >= 3 && case.max_len >= 600 => {
+                info.nontrivial = true;
+                info.class("cookie_expires_while_the_client_stalls");
+            }
+            Scn::Frame(FrameLen::AliasedPing) => {
+                info.class("length_prefix_above_2^21");
+            }
             _ => {}
         }
     }
@@ -330,17 +401,19 @@ impl Check for C14 {
             Just(FrameLen::Default),
             Just(FrameLen::DefaultPlusOne),
             Just(FrameLen::Small),
+            Just(FrameLen::AliasedPing),
         ];
         let beh = prop_oneof![Just(Behaviour::Silent), Just(Behaviour::Dribble), any::<u8>().prop_map(Behaviour::StopAfter), Just(Behaviour::Garbage)];
         let scn = prop_oneof![
             4 => fl.prop_map(Scn::Frame),
             3 => (any::<bool>(), prop::bool::weighted(0.25)).prop_map(|(inside, other_secret)| Scn::Cookie { inside, other_secret }),
             2 => beh.prop_map(|b| Scn::Behave(b)),
+            1 => Just(Scn::StallThenCookie),
         ];
         (
             prop_oneof![3 => proptest::sample::select(vec![64u32, 100, 1000, 9_999, 10_001, 65_536, (1 << 21) - 1]), 1 => Just(10_000u32), 2 => 64u32..200_000],
             proptest::sample::select(vec![30u64, 60, 600, 21_600, 100_000, 1_000_000]),
-            1u8..=2,
+            1u8..=3,
             "[a-zA-Z0-9]{4,24}",
             proptest::collection::vec(scn, 6..20),
             300u16..900,
